@@ -11,6 +11,7 @@ import (
 	"github.com/emirpasic/gods/v2/lists/arraylist"
 	"github.com/emirpasic/gods/v2/lists/doublylinkedlist"
 	"github.com/emirpasic/gods/v2/lists/singlylinkedlist"
+	"github.com/emirpasic/gods/v2/maps"
 	"github.com/emirpasic/gods/v2/maps/linkedhashmap"
 	"github.com/emirpasic/gods/v2/maps/treemap"
 	"github.com/emirpasic/gods/v2/queues/arrayqueue"
@@ -244,4 +245,47 @@ func loadVariantRaw(c jsonIO, variant int, b []byte) error {
 		return c.UnmarshalJSON(b)
 	}
 	return json.Unmarshal(b, c)
+}
+
+// level: a named integer key type with a String method. encoding/json writes such map keys as numbers in
+// quotes ("0"), not through String(); a container's ToJSON must do the same, or its own output will not load.
+type level int
+
+func (l level) String() string { return "L" + strconv.Itoa(int(l)) }
+
+func stringerKeyProbe(o *Oracle, salt int) {
+	for _, kind := range []string{"hashmap", "treemap", "linkedhashmap", "redblacktree", "avltree", "btree"} {
+		if o.Failed() {
+			return
+		}
+		o.Kind = kind
+		mk := func() maps.Map[level, string] {
+			return newKVV[level, string](kind, 3+salt%3, func(a, b level) int { return int(a) - int(b) })
+		}
+		m := mk()
+		n := 2 + derive(salt, 7, 5)
+		want := map[level]string{}
+		for i := 0; i < n; i++ {
+			k := level(derive(salt, 20+i, 40) - 5)
+			m.Put(k, "v"+strconv.Itoa(i))
+			want[k] = "v" + strconv.Itoa(i)
+		}
+		b, err := m.(jsonIO).ToJSON()
+		ref, _ := json.Marshal(want)
+		if err != nil || !json.Valid(b) || !sameDocument(b, ref, true) {
+			o.Fail("C11", "stringer-keys", "%s over a named int key type with a String method: ToJSON gives %s (%v), json.Marshal of the same pairs %s", kind, b, err, ref)
+			return
+		}
+		f := mk()
+		if err := loadVariantRaw(f.(jsonIO), salt, b); err != nil {
+			o.Fail("C11", "restart-load-error", "%s over a named int key type with a String method: loading its own ToJSON output %s failed: %v", kind, b, err)
+			return
+		}
+		for k, v := range want {
+			if g, ok := f.Get(k); !ok || g != v || f.Size() != len(want) {
+				o.Fail("C11", "restart-content", "%s over a named int key type with a String method: after reloading %s Get(%d)=(%q,%v), Size()=%d, want (%q,true), %d", kind, b, int(k), g, ok, f.Size(), v, len(want))
+				return
+			}
+		}
+	}
 }
